@@ -198,8 +198,10 @@ impl<'a> GetLastStateProofProcess<'a> {
     pub(crate) async fn execute(self) -> Status {
         let last_n_blocks: u64 = self.message.last_n_blocks().into();
 
-        if self.message.difficulties().len() + (last_n_blocks as usize) * 2
-            > constant::GET_LAST_STATE_PROOF_LIMIT
+        // `last_n_blocks` comes from the peer: compare it first, the sum below must not overflow.
+        if last_n_blocks > constant::GET_LAST_STATE_PROOF_LIMIT as u64
+            || self.message.difficulties().len() + (last_n_blocks as usize) * 2
+                > constant::GET_LAST_STATE_PROOF_LIMIT
         {
             return StatusCode::MalformedProtocolMessage.with_context("too many samples");
         }
